@@ -21,6 +21,17 @@ CHECKS = {
             'Trusted: ref/match.py (three-valued literal validity), the bound (pattern length, path length, '
             'alphabet); literals with regex metacharacters are outside the property (O1).',
             'DESIGN.md section 5, C05'),
+    'C06': ('E1-product-enumerator',
+            'bounded-exhaustive enumeration of routing tables x requests on the real dispatcher against a reference '
+            'dispatch loop',
+            'All routing tables of <=2 routes over the full 120-entry route catalogue, 3-route (thorough: larger '
+            '3-route and 4-route) tables over sub-catalogues, in the three slash modes, built by constructor list and '
+            'by every order of add(entry, index) calls, each driven with the full 36-request catalogue; status, '
+            'executed-endpoint sequence, answering route, Allow and Location are compared with ref/dispatch.py. '
+            'Dispatch is a loop with interacting skip/break/continue conditions, so complete small tables are the '
+            'right strength.',
+            'Trusted: ref/dispatch.py and ref/match.py; behaviours outside the six catalogue behaviours are not explored.',
+            'DESIGN.md section 5, C06'),
 }
 
 NOT_YET = 'check not built yet in this revision of /verif (planned: bounded exhaustive exploration, see DESIGN.md section 5)'
